@@ -44,7 +44,7 @@ Deliverables in {out}:
 2. demo.sh — a POSIX shell script taking the path of a built gopatch binary as $1 (build with `cd {wt} && go build -o <somewhere> .`), creating its inputs in a fresh temp dir (mktemp -d; clean up) with here-documents (cat > file <<'EOF'), exiting 0 when the property HOLDS on its scenario and 1 when it is VIOLATED. It must exit 1 with your change and 0 on the unchanged code. If the property concerns the library API (package patch) and cannot be shown via the CLI, deliver instead a Go test file demo_test.go with a single test function named TestSeededDemo (state in meta.json which package directory it belongs in); it must fail with the change and pass without.
 3. meta.json — {{"property": "{pid}", "summary": "<what the change does and why it breaks the property>", "needs": "<exactly what is needed for the breakage to manifest, and what still behaves as before>", "files_changed": [...], "demo": "<how to run>", "verified": ["<each command you ran and its outcome, with and without the change>"]}}
 
-Verify everything yourself before finishing: build + full test suite with the change; demo fails (exit 1) with the change; stash the change, rebuild, demo passes (exit 0); restore the change. If an idea fails the existing tests, drop it and try another. Remove any binaries you built outside the worktree when done. Final answer: a 5-line summary (what, where, what it needs, demo result with/without).
+Verify everything yourself before finishing: build + full test suite with the change; demo fails (exit 1) with the change; save your diff to a file, undo the change with `git checkout -- .` (do NOT use `git stash`: all scratch worktrees share one stash), rebuild, demo passes (exit 0); restore the change with `git apply`. If an idea fails the existing tests, drop it and try another. Remove any binaries you built outside the worktree when done. Final answer: a 5-line summary (what, where, what it needs, demo result with/without).
 """
     open(os.path.join(root, "prompts", pid + ".txt"), "w").write(text)
     print(pid, len(taken), "earlier ideas")
